@@ -239,3 +239,22 @@ check("C07", "model_checking",
       "engine call sites computing the necessary vote count are replicated in the driver; MaxKnownVotes eviction and gossip are outside",
       "TLA+ transcription of the certificate rules + TLC-exported cases on real validators cache / votes / certificates + TLC trace validation",
       "DESIGN.md#c07")
+
+check("C09", "model_checking",
+      "ChainStore.tla describes one node as a durable store plus volatile process state and every operation as the SEQUENCE OF DURABLE "
+      "STEPS the code issues (AddBlock with validation, tree commits, prunes, header / canonical hash / head / diff / index writes; "
+      "ResetTo; start-up = InitChain, InitState with the drop of orphan versions, the EnsureIntegrity loop; fast sync with the "
+      "preliminary copy, per-header steps, snapshot import, the atomic switch and the resume logic); a crash is possible in front of "
+      "every durable step of the operation, of recovery and of the continuation (<= 2 crashes per behaviour + the clean stop). TLC "
+      "checks BootOk, HeadMatchesState, HeadInWindow, HeadIndexed, CleanRestartStutter, ContinuationAccepted, ReachesReference, "
+      "IndexMatchesReference on the bounded model and exports every finished behaviour as a crash schedule; each schedule is executed "
+      "on a REAL node over a crash-injecting database (the process is killed inside the scheduled write; a batch is applied entirely or "
+      "not at all), restarted through the real start-up sequence, continued and probed with a rollback; TLC validates the recorded "
+      "writes and observations (clauses on observed state = verdict; write-kind sequences, tracked store and predicted outcomes = drift).",
+      "quick: 513k + 473k states, ~1700 schedules + enumeration of every write index of 10 larger seeded scenarios, ~120k trace lines; "
+      "thorough: 1.8M states, every single-crash schedule, 8000 double-crash schedules, 40 enumerated scenarios; MemDB semantics (no torn "
+      "single writes, no fsync reordering); genesis generation, proposer-side apply-tx-log writes and background writers are outside; "
+      "the fast-sync call sequence is transcribed onto the real exported methods (the fastSync type is bound to the gossip handler); the "
+      "start-up order is the harness's copy of node.go; three findings fixed",
+      "TLA+ durable-step model + TLC-exported crash schedules on a real node over a crash-injecting database + TLC trace validation",
+      "DESIGN.md#c09")
